@@ -258,8 +258,56 @@ func (u *Unit) inline(fr *Frame, st *State, fn *ssa.Function, key string, binds,
 	return ret
 }
 
+// escapingClosures: a closure of this package handed to a function that is called through its contract is run by
+// that function some unknown number of times. Its body is checked once on a copy of the state (with the heap
+// havocked, like a goroutine), and every call counted inside it becomes an unknown count in the caller, so that no
+// clause about "how often" can be proved from it by accident.
+func (u *Unit) escapingClosures(fr *Frame, st *State, args []Val, where, callee string) {
+	for _, a := range args {
+		cv, ok := a.(*ClosureV)
+		if !ok {
+			continue
+		}
+		target, ok := cv.Fn.(*ssa.Function)
+		if !ok || target.Blocks == nil || target.Parent() == nil {
+			continue
+		}
+		root := target
+		for root.Parent() != nil {
+			root = root.Parent()
+		}
+		if root.Pkg != u.eng.pkg || u.spawnDepth > 3 {
+			continue
+		}
+		sub := st.clone()
+		for k := range sub.ghost {
+			if strings.HasPrefix(k, "calls:") {
+				sub.ghost[k] = TZero
+			}
+		}
+		sub.defers = map[*Frame][]*DeferRec{}
+		u.havocHeap(sub, nil, "escape")
+		u.spawnDepth++
+		u.callFunction(fr, sub, target, cv.Binds, nil, where, false)
+		u.spawnDepth--
+		for k, v := range sub.ghost {
+			if strings.HasPrefix(k, "calls:") && v.S != "0" {
+				n := u.fresh(SInt, "escaped_"+sanitize(k[6:]))
+				u.assume(TTrue, Cmp(">=", n, TZero))
+				cur, ok := st.ghost["scalls:"+k[6:]]
+				if !ok {
+					cur = TZero
+				}
+				st.ghost["scalls:"+k[6:]] = u.define(Arith("+", cur, n), "sc")
+			}
+		}
+		u.note("closure %s escapes into %s: checked once, call counts unknown", u.eng.funcKey(target), callee)
+	}
+}
+
 func (u *Unit) modularCall(fr *Frame, st *State, fn *ssa.Function, fc *FuncContract, key string, args []Val, where string, spawned bool) Val {
 	fc.Used = true
+	u.escapingClosures(fr, st, args, where, key)
 	names := paramNames(fn)
 	m := bindArgs(names, args)
 	bare := bareName(key)
